@@ -15,6 +15,7 @@ macro("FINV1", ["c", "s"],
       " and not fprog(c, s).shard._shard_writer.closed"
       " and SHARD_OK(fprog(c, s).shard) and fprog(c, s).shard._dataset_path == c._dataset_root_path"
       " and not isdisk(fprog(c, s).shard.shard_info)"
+      " and SHARD_IN(fprog(c, s).shard, s, c._relative_path_from_split) and PLAIN(s)"
       " and NOT_ON_DISK(c._dataset_root_path, fprog(c, s).shard.shard_info)"
       # an open shard is not listed anywhere yet (its count still changes)
       " and forall(lambda t, i: implies(t in c._shards_lists and 0 <= i and i < len(c._shards_lists[t].shard_files),"
@@ -39,7 +40,8 @@ def FINV1_PARTS():
         " and fprog(C_, s).written_examples <= C_._examples_per_shard",
         "fprog(C_, s).shard._shard_writer is not None and fprog(C_, s).shard._shard_writer.nrec == fprog(C_, s).written_examples"
         " and not fprog(C_, s).shard._shard_writer.closed",
-        "SHARD_OK(fprog(C_, s).shard) and fprog(C_, s).shard._dataset_path == C_._dataset_root_path and not isdisk(fprog(C_, s).shard.shard_info)",
+        "SHARD_OK(fprog(C_, s).shard) and fprog(C_, s).shard._dataset_path == C_._dataset_root_path and not isdisk(fprog(C_, s).shard.shard_info)"
+        " and SHARD_IN(fprog(C_, s).shard, s, C_._relative_path_from_split) and PLAIN(s)",
         "NOT_ON_DISK(C_._dataset_root_path, fprog(C_, s).shard.shard_info)",
         "forall(lambda t, i: implies(t in C_._shards_lists and 0 <= i and i < len(C_._shards_lists[t].shard_files),"
         " C_._shards_lists[t].shard_files[i] is not fprog(C_, s).shard.shard_info), t='U')",
@@ -97,6 +99,7 @@ contract(MF, CTX + "._get_new_shard", props=["C10", "C11", "C18"],
         "result._shard_writer.nrec == 0 and not result._shard_writer.closed",
         "not truthy(result.shard_info.custom_metadata)",
         "SHARD_OK(result) and result._dataset_path == self._dataset_root_path and not isdisk(result.shard_info)",
+        "SHARD_IN(result, split, self._relative_path_from_split)",
     ],
     verify=False, assumed=True,
     note="constructor glue (Shard.__init__, get_shard_writer, pydantic ShardInfo/FileInfo); checked by the run-time contract in harness/c_filler.py")
@@ -110,7 +113,18 @@ _WE_MOD = ["ShardProgress.shard", "ShardProgress.written_examples",
 
 contract(MF, CTX + ".write_example", props=["C10", "C11", "C18", "C04"],
     params={"values": "U", "split": "U", "custom_metadata": "optref:DictObj"},
-    requires=["FINV(self)", "SAFE(split)"],
+    exit_lemmas=[
+        # the progress records of the other splits are the same objects as before
+        "forall(lambda s: implies(s != split and s in self._current_shards_progress,"
+        "   old(s in self._current_shards_progress) and fprog(self, s) is old(fprog(self, s)) and fprog(self, s).shard is old(fprog(self, s).shard)"
+        "   and fprog(self, s).shard.shard_info is old(fprog(self, s).shard.shard_info)), s='U')",
+        # their open shards are still in no list document ...
+        "forall(lambda s: implies(s != split and s in self._current_shards_progress,"
+        "   NOT_ON_DISK(self._dataset_root_path, fprog(self, s).shard.shard_info)), s='U')",
+        # ... and neither is the open shard of this split
+        "NOT_ON_DISK(self._dataset_root_path, fprog(self, split).shard.shard_info)",
+    ],
+    requires=["FINV(self)", "SAFE(split)", "PLAIN(split)"],
     modifies=_WE_MOD,
     at_call={"close_shard": [
         # C10: a shard closed by a write is full unless the label changed
@@ -138,6 +152,11 @@ contract(MF, CTX + ".write_example", props=["C10", "C11", "C18", "C04"],
                 "   fprog(self, split).shard.shard_info.custom_metadata == old(fprog(self, split).shard.shard_info.custom_metadata))"),
         # other splits untouched
         ("C10", "forall(lambda t: implies(t != split, (t in self._current_shards_progress) == old(t in self._current_shards_progress)), t='U')"),
+        ("C04", "forall(lambda t: implies(t != split, (t in self._shards_lists) == old(t in self._shards_lists)), t='U')"),
+        ("C04", "implies(old(split in self._shards_lists), split in self._shards_lists)"),
+        # C04: the certified part of the tree stays an exact tree; only this split's directory is touched
+        ("C04", "reveal CS_GINV: hide WE_GINV: implies(old(GINV(self._dataset_root_path)), GINV(self._dataset_root_path))"),
+        ("C04", "reveal CS_FR: hide WE_FR: OTHER_SPLITS_KEPT(self._dataset_root_path, split)"),
     ],
     raises={"Exception": [
         # C18: a rejected write (the shard of `split` is still open) leaves the context consistent, counts unchanged
